@@ -22,7 +22,7 @@ RULE = ("keys: full product 5 types x 2 encodings x 2 private formats x 2 public
         "length variable = sizeof(array); formatting product columns x indentation x tab x no-length x no-const x custom "
         "length type on 3 keys per type must change whitespace only. distinct = distinct keys / option tuples")
 ASSUMPTIONS = ["cryptography's key loaders and public_numbers()", "keys for convert are built by the harness with ec.derive_private_key"]
-BOUNDS = {"quick": "N = 2000 scalars per curve + table; 256 seeds per Ed curve; 40x3 key generations; 288 formatting tuples x 15 keys",
+BOUNDS = {"quick": "N = 5000 scalars per curve + table; 256 seeds per Ed curve; 40x3 key generations; 288 formatting tuples x 15 keys",
           "thorough": "N = 50000 scalars per curve + table"}
 
 TYPES = ["secp256r1", "secp384r1", "secp521r1", "ed25519", "ed448"]
@@ -157,7 +157,7 @@ def convert(priv, d, **opts):
 
 
 def scalar_cases(tier):
-    n = 2000 if tier == "quick" else 50000
+    n = 5000 if tier == "quick" else 50000
     out = []
     table = json.load(open(os.path.join(os.path.dirname(os.path.dirname(__file__)), "data", "ec_scalars.json")))
     for c in CURVES:
